@@ -11,8 +11,8 @@
     unicode.ToLower / unicode.IsSpace; nothing is assumed of any of these oracles.
     "Every cache content" = every state satisfying the C12 invariant [Inv], i.e. (C12) every state
     the cache operations can reach; the theorems are stated for [Inv] and for histories. *)
-From CM Require Import Lib.Str Gen.Consts Cache.Model Cache.AMapFacts Cache.Proofs
-  Lookup.Model Lookup.Proofs Lookup.Check Lookup.SpecProofs.
+From CM Require Import Lib.Str Lib.QualSteps Gen.Consts Cache.Model Cache.AMapFacts Cache.Proofs Cache.Check
+  Lookup.Model Lookup.Proofs Lookup.ProofsX Lookup.Check Lookup.SpecProofs.
 From Coq Require Import Arith.
 Open Scope nat_scope.
 
@@ -119,9 +119,11 @@ Print Assumptions C03_unexpired_supported_preferred.
 Theorem C03_default_selector : forall sup valid choices c,
   default_select sup valid choices = Some c ->
   In c choices /\
-  ((exists c', In c' choices /\ good sup valid c') -> good sup valid c).
+  ((exists c', In c' choices /\ good sup valid c') -> good sup valid c) /\
+  ((exists c', In c' choices /\ sup (c_hash c') = true) -> sup (c_hash c) = true).
 Proof.
-  intros sup valid choices c H. split; [eapply default_select_In; eauto | eapply default_select_good; eauto].
+  intros sup valid choices c H. split; [eapply default_select_In; eauto|].
+  split; [eapply default_select_good; eauto | eapply default_select_sup; eauto].
 Qed.
 Print Assumptions C03_default_selector.
 
@@ -149,15 +151,227 @@ Theorem C03_covers_iff_match_wildcard : forall lower subject wildcard,
 Proof. exact match_wildcard_covers. Qed.
 Print Assumptions C03_covers_iff_match_wildcard.
 
+(** ================= the extended model [lookup_x] =================
+    [lookup_x] adds to [lookup]: any selection policy [sel] (selectCert with or without a
+    Config.CertSelection), getNameFromClientHello's choice of the name from the IDNA form of the
+    server name (computed by the harness with x/net/idna, not by the code under test),
+    SubjectQualifiesForCert (conjuncts read from the source), loadCertFromStorage over the storage
+    content, and the cache after the call. *)
+
+(** with the default policy its answer is [lookup]'s: everything above holds of it *)
+Theorem C03_lookup_x_is_lookup : forall lower is_space sup valid s cap cfg sni ip e,
+  fst (lookup_x lower is_space (select_cert sup valid) true s cap cfg sni ip e) =
+  lookup lower is_space sup valid s cap cfg sni ip (env_of lower is_space cfg ip e).
+Proof. exact lookup_x_default. Qed.
+Print Assumptions C03_lookup_x_is_lookup.
+
+(** F lookup_sound, complete form (default policy): an error, or a certificate really in the cache
+    covering the server name / listing the local IP (no SNI) / the default name (no SNI) / the
+    fallback name -- or, only when the cache is almost full, a certificate loaded from storage that
+    lists a name covering the requested name (its IDNA form; the default name or local IP without
+    SNI) exactly or with its first label replaced by "*".  So with the default policy a certificate
+    that covers neither is only ever the default name's (no SNI) or the fallback name's. *)
+Theorem C03_lookup_sound_x : forall lower is_space sup valid names_of cap conn s cfg sni ip e c s',
+  Inv names_of cap s -> storage_wf (x_storage e) ->
+  lookup_x lower is_space (select_cert sup valid) conn s cap cfg sni ip e = (ROk c, s') ->
+  let n := normalize lower is_space sni in
+  (alookup (c_hash c) (cache s) = Some c /\
+   ((n <> [] /\ exists san, In san (c_names c) /\ covers san n) \/
+    (n = [] /\ conn = true /\ In ip (c_names c)) \/
+    (n = [] /\ default_name cfg <> [] /\ In (normalize lower is_space (default_name cfg)) (c_names c)) \/
+    (fallback_name cfg <> [] /\ In (normalize lower is_space (fallback_name cfg)) (c_names c)))) \/
+  (almost_full cap (length (cache s)) = true /\
+   exists nm x, hello_name lower is_space cfg ip (x_idna e) = Some nm /\
+                subject_qualifies is_space nm = true /\
+                load_from_storage (x_storage e) (x_broken e) nm = Some x /\ sd_servable x = true /\ c = sd_cert x /\
+                exists san, In san (c_names c) /\ covers san nm).
+Proof. intros. eapply lookup_x_sound; eauto. Qed.
+Print Assumptions C03_lookup_sound_x.
+
+(** the order in which names are offered to selectCert -- local IP, default name (no SNI) or
+    exact name, "*.b.c", "*.*.c", ... -- then the fallback name: the first accepted one decides,
+    whatever the selection policy *)
+Theorem C03_names_tried_in_order : forall lower is_space sel conn s cfg sni ip,
+  from_cache_x lower is_space sel conn s cfg sni ip =
+  first_tried sel s (tried lower is_space conn cfg sni ip).
+Proof. exact from_cache_x_first_tried. Qed.
+Print Assumptions C03_names_tried_in_order.
+
+(** F custom_selector_scope: with a Config.CertSelection (any of the policies) the answer is an
+    error, or a certificate of the cache that the selector chose for the first tried name for which
+    it accepted a choice -- offered the certificates listed under that name, all cached ones only if
+    none is listed --, or the certificate loaded from storage.  A custom selector may thus answer
+    with a certificate that does not cover the name: that is its documented purpose. *)
+Theorem C03_custom_selector_scope : forall lower is_space sup valid names_of cap p conn s cfg sni ip e c s',
+  Inv names_of cap s ->
+  lookup_x lower is_space (sel_policy sup valid p) conn s cap cfg sni ip e = (ROk c, s') ->
+  (alookup (c_hash c) (cache s) = Some c /\
+   exists pre v b post, tried lower is_space conn cfg sni ip = pre ++ (v, b) :: post /\
+     Forall (fun q => sel_policy sup valid p s (fst q) = None) pre /\
+     sel_policy sup valid p s v = Some c /\
+     (p <> PDefault -> In c (choices_for s v))) \/
+  (exists x, load_ok lower is_space cap s cfg ip e x /\ sd_servable x = true /\ c = sd_cert x).
+Proof. intros. eapply custom_selector_scope; eauto. Qed.
+Print Assumptions C03_custom_selector_scope.
+
+(** a custom selector is offered exactly the certificates listed under the name when there are any *)
+Theorem C03_custom_choices_when_listed : forall s n,
+  idx s n <> [] -> choices_for s n = get_all_matching_certs s n.
+Proof. exact choices_for_listed. Qed.
+Print Assumptions C03_custom_choices_when_listed.
+
+(** complete answer, any policy: if every cached and every stored certificate is complete *)
+Theorem C03_answer_complete_x : forall (complete : cert -> Prop) lower is_space sup valid names_of cap p conn s cfg sni ip e c s',
+  Inv names_of cap s ->
+  (forall h x, alookup h (cache s) = Some x -> complete x) ->
+  (forall k x, alookup k (x_storage e) = Some x -> complete (sd_cert x)) ->
+  lookup_x lower is_space (sel_policy sup valid p) conn s cap cfg sni ip e = (ROk c, s') -> complete c.
+Proof.
+  intros complete lower is_space sup valid names_of cap p conn s cfg sni ip e c s' HI Hc Hs H.
+  destruct (custom_selector_scope sup valid names_of cap lower is_space p conn s cfg sni ip e c s' HI H)
+    as [[Hx _]|(x & (nm & _ & _ & _ & Hl) & _ & ->)]; [eauto|].
+  apply load_from_storage_key in Hl. destruct Hl as [k Hk]. eauto.
+Qed.
+Print Assumptions C03_answer_complete_x.
+
+(** what is loaded from storage covers the name it was loaded for *)
+Theorem C03_loaded_covers_name : forall st br nm x,
+  storage_wf st -> load_from_storage st br nm = Some x ->
+  exists san, In san (c_names (sd_cert x)) /\ covers san nm.
+Proof. exact loaded_covers. Qed.
+Print Assumptions C03_loaded_covers_name.
+
+(** the cache and a lookup: the C12 invariant (index and cache agree, within capacity) survives
+    every lookup, whatever the policy; and only the almost-full branch touches the cache *)
+Theorem C03_lookup_preserves_cache_invariant : forall lower is_space sel names_of conn s cap cfg sni ip e,
+  Inv names_of cap s ->
+  (forall k x, alookup k (x_storage e) = Some x -> wf_cert names_of (sd_cert x)) ->
+  Inv names_of cap (snd (lookup_x lower is_space sel conn s cap cfg sni ip e)).
+Proof. intros. eapply lookup_x_inv; eauto. Qed.
+Print Assumptions C03_lookup_preserves_cache_invariant.
+
+Theorem C03_lookup_touches_cache_only_when_almost_full : forall lower is_space sel conn s cap cfg sni ip e,
+  almost_full cap (length (cache s)) = false ->
+  snd (lookup_x lower is_space sel conn s cap cfg sni ip e) = s.
+Proof. intros. eapply lookup_x_unchanged; eauto. Qed.
+Print Assumptions C03_lookup_touches_cache_only_when_almost_full.
+
+(** a name that does not qualify (SubjectQualifiesForCert) is refused unless the cache matched:
+    no default, no fallback, nothing loaded *)
+Theorem C03_unqualified_name_refused : forall lower is_space sel conn s cap cfg sni ip e nm,
+  hello_name lower is_space cfg ip (x_idna e) = Some nm -> subject_qualifies is_space nm = false ->
+  (forall c v, from_cache_x lower is_space sel conn s cfg sni ip <> Some (c, true, v)) ->
+  lookup_x lower is_space sel conn s cap cfg sni ip e = (RErr, s).
+Proof. exact unqualified_refused. Qed.
+Print Assumptions C03_unqualified_name_refused.
+
+(** Config.GetCertificate as a whole: an event handler's veto and a TLS-ALPN challenge ClientHello
+    (server name given, "acme-tls/1" the only ALPN protocol) without a challenge in progress give an
+    error and leave the cache alone -- never a certificate of the cache; every other ClientHello is
+    answered by [lookup_x], to which all of the above applies *)
+Theorem C03_get_certificate_branches : forall lower is_space sel abort protos conn s cap cfg sni ip e,
+  (abort = true \/ acme_tls_alpn sni protos = true ->
+   get_certificate lower is_space sel abort protos conn s cap cfg sni ip e = (RErr, s)) /\
+  (abort = false -> acme_tls_alpn sni protos = false ->
+   get_certificate lower is_space sel abort protos conn s cap cfg sni ip e =
+   lookup_x lower is_space sel conn s cap cfg sni ip e).
+Proof.
+  intros. unfold get_certificate. split.
+  - intros [->|H]; [reflexivity|]. rewrite H. destruct abort; reflexivity.
+  - intros -> ->. reflexivity.
+Qed.
+Print Assumptions C03_get_certificate_branches.
+
+(** translator tie: the conjuncts of SubjectQualifiesForCert read from the source today, and the
+    almost-full factor *)
+Theorem C03_code_constants_today :
+  qualify_conds = [QNonBlank; QNotPrefix [46%N]; QNotSuffix [46%N];
+                   QOnlyIf [42%N] [42%N; 46%N] [42%N]; QNoneOf reject_chars_ref] /\
+  almost_full_num = 9 /\ almost_full_den = 10 /\
+  acme_tls1_protocol = [97; 99; 109; 101; 45; 116; 108; 115; 47; 49]%N.     (* "acme-tls/1" *)
+Proof. repeat split; reflexivity. Qed.
+Print Assumptions C03_code_constants_today.
+
+(** translator tie: the shapes of the code the model writes out by hand -- the order of the
+    selectCert calls in getCertificateFromCache and which flag each sets, the wildcard loop,
+    normalizedName, DefaultCertificateSelector, selectCert, loadCertFromStorage,
+    getNameFromClientHello, the almost-full test -- as the translator reads them from the source on
+    every run (harness/cmd/consts/c03.go).  If the source is re-ordered or re-guarded this stops
+    checking (and the correspondence is searched for a failing input). *)
+Theorem C03_code_shape_today :
+  (* ["addr:matched"; "normDefault:defaulted"] *)
+  lookup_order_no_sni = [[97; 100; 100; 114; 58; 109; 97; 116; 99; 104; 101; 100]%N; [110; 111; 114; 109; 68; 101; 102; 97; 117; 108; 116; 58; 100; 101; 102; 97; 117; 108; 116; 101; 100]%N] /\
+  (* ["name:matched"; "candidate:matched"] *)
+  lookup_order_sni = [[110; 97; 109; 101; 58; 109; 97; 116; 99; 104; 101; 100]%N; [99; 97; 110; 100; 105; 100; 97; 116; 101; 58; 109; 97; 116; 99; 104; 101; 100]%N] /\
+  (* ["normFallback:defaulted"] *)
+  lookup_order_tail = [[110; 111; 114; 109; 70; 97; 108; 108; 98; 97; 99; 107; 58; 100; 101; 102; 97; 117; 108; 116; 101; 100]%N] /\
+  (* "*" *)
+  lookup_wildcard_label = [42]%N /\
+  (* "." *)
+  lookup_split_sep = [46]%N /\
+  (* "." *)
+  lookup_join_sep = [46]%N /\
+  (* true *)
+  normalized_name_is_lower_of_trim = true /\
+  (* ["len==1"; "len==0"; "best=*ast.IndexExpr"; "unsupported-continue"; "best=choice"; "valid(choice.Leaf.NotBefore,expiresAt(...))-return-choice"; "return-best"] *)
+  default_selector_shape = [[108; 101; 110; 61; 61; 49]%N; [108; 101; 110; 61; 61; 48]%N; [98; 101; 115; 116; 61; 42; 97; 115; 116; 46; 73; 110; 100; 101; 120; 69; 120; 112; 114]%N; [117; 110; 115; 117; 112; 112; 111; 114; 116; 101; 100; 45; 99; 111; 110; 116; 105; 110; 117; 101]%N; [98; 101; 115; 116; 61; 99; 104; 111; 105; 99; 101]%N; [118; 97; 108; 105; 100; 40; 99; 104; 111; 105; 99; 101; 46; 76; 101; 97; 102; 46; 78; 111; 116; 66; 101; 102; 111; 114; 101; 44; 101; 120; 112; 105; 114; 101; 115; 65; 116; 40; 46; 46; 46; 41; 41; 45; 114; 101; 116; 117; 114; 110; 45; 99; 104; 111; 105; 99; 101]%N; [114; 101; 116; 117; 114; 110; 45; 98; 101; 115; 116]%N] /\
+  (* ["choices=cfg.certCache.getAllMatchingCerts(...)"; "if len(...)==0"; "if cfg.CertSelection==nil"; "choices=cfg.certCache.getAllCerts(...)"; "if cfg.CertSelection==nil"; "call DefaultCertificateSelector"; "call cfg.CertSelection.SelectCertificate"] *)
+  select_cert_shape = [[99; 104; 111; 105; 99; 101; 115; 61; 99; 102; 103; 46; 99; 101; 114; 116; 67; 97; 99; 104; 101; 46; 103; 101; 116; 65; 108; 108; 77; 97; 116; 99; 104; 105; 110; 103; 67; 101; 114; 116; 115; 40; 46; 46; 46; 41]%N; [105; 102; 32; 108; 101; 110; 40; 46; 46; 46; 41; 61; 61; 48]%N; [105; 102; 32; 99; 102; 103; 46; 67; 101; 114; 116; 83; 101; 108; 101; 99; 116; 105; 111; 110; 61; 61; 110; 105; 108]%N; [99; 104; 111; 105; 99; 101; 115; 61; 99; 102; 103; 46; 99; 101; 114; 116; 67; 97; 99; 104; 101; 46; 103; 101; 116; 65; 108; 108; 67; 101; 114; 116; 115; 40; 46; 46; 46; 41]%N; [105; 102; 32; 99; 102; 103; 46; 67; 101; 114; 116; 83; 101; 108; 101; 99; 116; 105; 111; 110; 61; 61; 110; 105; 108]%N; [99; 97; 108; 108; 32; 68; 101; 102; 97; 117; 108; 116; 67; 101; 114; 116; 105; 102; 105; 99; 97; 116; 101; 83; 101; 108; 101; 99; 116; 111; 114]%N; [99; 97; 108; 108; 32; 99; 102; 103; 46; 67; 101; 114; 116; 83; 101; 108; 101; 99; 116; 105; 111; 110; 46; 83; 101; 108; 101; 99; 116; 67; 101; 114; 116; 105; 102; 105; 99; 97; 116; 101]%N] /\
+  (* ["load name"; "if errors.Is(err,fs.ErrNotExist)"; "labels[0]=*"; "load strings.Join(...)"] *)
+  load_from_storage_shape = [[108; 111; 97; 100; 32; 110; 97; 109; 101]%N; [105; 102; 32; 101; 114; 114; 111; 114; 115; 46; 73; 115; 40; 101; 114; 114; 44; 102; 115; 46; 69; 114; 114; 78; 111; 116; 69; 120; 105; 115; 116; 41]%N; [108; 97; 98; 101; 108; 115; 91; 48; 93; 61; 42]%N; [108; 111; 97; 100; 32; 115; 116; 114; 105; 110; 103; 115; 46; 74; 111; 105; 110; 40; 46; 46; 46; 41]%N] /\
+  (* ["idna strings.TrimSpace(hello.ServerName)"; "if err!=nil"; "return """; "if name!="""; "return name"; "if cfg.DefaultServerName!="""; "return normalizedName(cfg.DefaultServerName)"; "return localIPFromConn(hello.Conn)"] *)
+  hello_name_shape = [[105; 100; 110; 97; 32; 115; 116; 114; 105; 110; 103; 115; 46; 84; 114; 105; 109; 83; 112; 97; 99; 101; 40; 104; 101; 108; 108; 111; 46; 83; 101; 114; 118; 101; 114; 78; 97; 109; 101; 41]%N; [105; 102; 32; 101; 114; 114; 33; 61; 110; 105; 108]%N; [114; 101; 116; 117; 114; 110; 32; 34; 34]%N; [105; 102; 32; 110; 97; 109; 101; 33; 61; 34; 34]%N; [114; 101; 116; 117; 114; 110; 32; 110; 97; 109; 101]%N; [105; 102; 32; 99; 102; 103; 46; 68; 101; 102; 97; 117; 108; 116; 83; 101; 114; 118; 101; 114; 78; 97; 109; 101; 33; 61; 34; 34]%N; [114; 101; 116; 117; 114; 110; 32; 110; 111; 114; 109; 97; 108; 105; 122; 101; 100; 78; 97; 109; 101; 40; 99; 102; 103; 46; 68; 101; 102; 97; 117; 108; 116; 83; 101; 114; 118; 101; 114; 78; 97; 109; 101; 41]%N; [114; 101; 116; 117; 114; 110; 32; 108; 111; 99; 97; 108; 73; 80; 70; 114; 111; 109; 67; 111; 110; 110; 40; 104; 101; 108; 108; 111; 46; 67; 111; 110; 110; 41]%N] /\
+  (* ["cacheAlmostFull:*ast.BinaryExpr&&*ast.BinaryExpr"; "cacheAlmostFull:cacheCapacity>0"; "cacheAlmostFull:float64(...)>=*ast.BinaryExpr"; "cacheAlmostFull:cacheCapacity*.9"; "loadDynamically:*ast.BinaryExpr||cacheAlmostFull"; "loadDynamically:cfg.OnDemand!=nil"] *)
+  almost_full_shape = [[99; 97; 99; 104; 101; 65; 108; 109; 111; 115; 116; 70; 117; 108; 108; 58; 42; 97; 115; 116; 46; 66; 105; 110; 97; 114; 121; 69; 120; 112; 114; 38; 38; 42; 97; 115; 116; 46; 66; 105; 110; 97; 114; 121; 69; 120; 112; 114]%N; [99; 97; 99; 104; 101; 65; 108; 109; 111; 115; 116; 70; 117; 108; 108; 58; 99; 97; 99; 104; 101; 67; 97; 112; 97; 99; 105; 116; 121; 62; 48]%N; [99; 97; 99; 104; 101; 65; 108; 109; 111; 115; 116; 70; 117; 108; 108; 58; 102; 108; 111; 97; 116; 54; 52; 40; 46; 46; 46; 41; 62; 61; 42; 97; 115; 116; 46; 66; 105; 110; 97; 114; 121; 69; 120; 112; 114]%N; [99; 97; 99; 104; 101; 65; 108; 109; 111; 115; 116; 70; 117; 108; 108; 58; 99; 97; 99; 104; 101; 67; 97; 112; 97; 99; 105; 116; 121; 42; 46; 57]%N; [108; 111; 97; 100; 68; 121; 110; 97; 109; 105; 99; 97; 108; 108; 121; 58; 42; 97; 115; 116; 46; 66; 105; 110; 97; 114; 121; 69; 120; 112; 114; 124; 124; 99; 97; 99; 104; 101; 65; 108; 109; 111; 115; 116; 70; 117; 108; 108]%N; [108; 111; 97; 100; 68; 121; 110; 97; 109; 105; 99; 97; 108; 108; 121; 58; 99; 102; 103; 46; 79; 110; 68; 101; 109; 97; 110; 100; 33; 61; 110; 105; 108]%N].
+Proof. repeat split; reflexivity. Qed.
+Print Assumptions C03_code_shape_today.
+
+(** "an error if and only if no certificate is available" (any policy): the lookup fails only when
+    nothing matched and either the requested name is unusable (its IDNA conversion fails, or it does
+    not qualify) or neither the default name (no SNI) nor the fallback name yields a certificate and
+    none can be loaded from storage; the converse direction is C03_error_only_if_unlisted /
+    C03_unqualified_name_refused *)
+Theorem C03_error_only_if_nothing_available : forall lower is_space c post,
+  lookup_x lower is_space (self c) (l_conn c) (l_state c) (l_cap c) (l_cfg c) (l_sni c) (l_ip c) (l_envx c) = (RErr, post) ->
+  error_ok lower is_space c = true.
+Proof. exact error_ok_model. Qed.
+Print Assumptions C03_error_only_if_nothing_available.
+
+(** translator tie, GetCertificateWithContext: the event handler's veto returns an error first; the
+    TLS-ALPN test is "server name given, exactly one ALPN protocol, and it is acme-tls/1"; otherwise
+    getCertDuringHandshake with loading enabled, whose certificate and error are returned as they are *)
+Theorem C03_entry_shape_today :
+  get_certificate_shape = [[105; 102; 32; 101; 114; 114; 58; 61; 99; 102; 103; 46; 101; 109; 105; 116; 40; 116; 108; 115; 95; 103; 101; 116; 95; 99; 101; 114; 116; 105; 102; 105; 99; 97; 116; 101; 41; 59; 32; 101; 114; 114; 33; 61; 110; 105; 108; 32; 45; 62; 32; 114; 101; 116; 117; 114; 110; 32; 110; 105; 108; 44; 102; 109; 116; 46; 69; 114; 114; 111; 114; 102; 40; 34; 104; 97; 110; 100; 115; 104; 97; 107; 101; 32; 97; 98; 111; 114; 116; 101; 100; 32; 98; 121; 32; 101; 118; 101; 110; 116; 32; 104; 97; 110; 100; 108; 101; 114; 58; 32; 37; 119; 34; 44; 101; 114; 114; 41]%N; [105; 102; 32; 99; 116; 120; 61; 61; 110; 105; 108; 32; 45; 62; 32; 99; 111; 110; 116; 105; 110; 117; 101]%N; [105; 102; 32; 99; 108; 105; 101; 110; 116; 72; 101; 108; 108; 111; 46; 83; 101; 114; 118; 101; 114; 78; 97; 109; 101; 33; 61; 34; 34; 32; 38; 38; 32; 108; 101; 110; 40; 99; 108; 105; 101; 110; 116; 72; 101; 108; 108; 111; 46; 83; 117; 112; 112; 111; 114; 116; 101; 100; 80; 114; 111; 116; 111; 115; 41; 61; 61; 49; 32; 38; 38; 32; 99; 108; 105; 101; 110; 116; 72; 101; 108; 108; 111; 46; 83; 117; 112; 112; 111; 114; 116; 101; 100; 80; 114; 111; 116; 111; 115; 91; 48; 93; 61; 61; 97; 99; 109; 101; 122; 46; 65; 67; 77; 69; 84; 76; 83; 49; 80; 114; 111; 116; 111; 99; 111; 108; 32; 45; 62; 32; 114; 101; 116; 117; 114; 110; 32; 99; 104; 97; 108; 108; 101; 110; 103; 101; 67; 101; 114; 116; 44; 110; 105; 108]%N; [99; 101; 114; 116; 44; 101; 114; 114; 58; 61; 99; 102; 103; 46; 103; 101; 116; 67; 101; 114; 116; 68; 117; 114; 105; 110; 103; 72; 97; 110; 100; 115; 104; 97; 107; 101; 40; 99; 116; 120; 44; 99; 108; 105; 101; 110; 116; 72; 101; 108; 108; 111; 44; 116; 114; 117; 101; 41]%N; [114; 101; 116; 117; 114; 110; 32; 38; 99; 101; 114; 116; 46; 67; 101; 114; 116; 105; 102; 105; 99; 97; 116; 101; 44; 101; 114; 114]%N].
+Proof. reflexivity. Qed.
+Print Assumptions C03_entry_shape_today.
+
 (** the run-time monitor is the boolean form of the statements above: it holds of what the model
-    answers on every cache satisfying the invariant *)
+    answers on every cache satisfying the invariant, for every policy *)
 Theorem C03_spec_ok_of_model : forall lower is_space names_of c,
   Inv names_of (l_cap c) (l_state c) ->
   (forall h x, alookup h (cache (l_state c)) = Some x -> at_complete (attr_get (l_attrs c) h) = true) ->
-  (forall lc, loaded (l_env c) = Some lc -> l_loaded_complete c = true) ->
-  spec_lookup lower is_space (with_obs c (obs_of c (run_lookup lower is_space c))) = true.
+  (forall h x, alookup h (cache (l_state c)) = Some x -> at_names (attr_get (l_attrs c) h) = c_names x) ->
+  (forall k x, alookup k (x_storage (l_envx c)) = Some x ->
+     alookup (c_hash (sd_cert x)) (l_stored_complete c) = Some true) ->
+  spec_lookup_o lower is_space c (obs_of c (fst (run_lookup lower is_space c))) = true.
 Proof. exact spec_lookup_of_model. Qed.
 Print Assumptions C03_spec_ok_of_model.
+
+(** the handshake and Cache.AllMatchingCertificates agree: a matched answer (default policy, server
+    name given) is one of the certificates AllMatchingCertificates reports for the normalised name *)
+Theorem C03_answer_among_all_matching : forall lower is_space names_of c,
+  Inv names_of (l_cap c) (l_state c) ->
+  spec_amc_o lower is_space c (obs_of c (fst (run_lookup lower is_space c))) (amc_of lower is_space c) = true.
+Proof. intros lower is_space names_of c HI. exact (spec_amc_of_model lower is_space names_of c HI). Qed.
+Print Assumptions C03_answer_among_all_matching.
+
+Theorem C03_spec_cache_of_model : forall lower is_space c,
+  let nm := names_of_pool (Check.case_certs c) in
+  Inv nm (l_cap c) (l_state c) ->
+  (forall k x, alookup k (x_storage (l_envx c)) = Some x -> wf_cert nm (sd_cert x)) ->
+  spec_cache_p c (snd (run_lookup lower is_space c)) = true.
+Proof. exact spec_cache_of_model. Qed.
+Print Assumptions C03_spec_cache_of_model.
 
 (** ---- non-vacuity: a reachable cache, and lookups exercising each clause ---- *)
 Definition s_ (l : list N) : str := l.
@@ -192,4 +406,52 @@ Example C03_hypotheses_satisfiable :
 Proof.
   split; [|vm_compute; repeat split].
   repeat constructor; cbn; try discriminate; reflexivity.
+Qed.
+
+(** ---- non-vacuity of the extended statements ---- *)
+Definition n_qy : name := [113; 46; 121]%N.          (* q.y *)
+Definition n_sy : name := [42; 46; 121]%N.           (* *.y *)
+Definition ex_L := Cert [76]%N [n_qy] true [100]%N [] 0%Z [].            (* L: q.y, managed, in storage *)
+Definition ex_W := Cert [87]%N [n_sy] true [100]%N [] 0%Z [].            (* W: *.y, managed, in storage *)
+Definition ex_full := run 1 init [OAdd ex_f None].                       (* capacity 1, holding f.y *)
+Definition ex_lookup_x (st : amap stored) sni :=
+  lookup_x ascii_lower ascii_space (select_cert (fun _ => true) ex_valid) true ex_full 1 (Config [] n_fb) sni n_ip
+           (EnvX (Some sni) st [] (Some [102]%N)).
+
+Example C03_x_hypotheses_satisfiable :
+  (* a full cache (1 of 1): "q.y" is not cached but in storage and fresh: loaded, evicting f.y *)
+  ex_lookup_x [(n_qy, Stored ex_L true true)] n_qy = (ROk ex_L, run 1 init [OAdd ex_f None; OAdd ex_L (Some [102]%N)]) /\
+  storage_wf [(n_qy, Stored ex_L true true)] /\
+  (* found under the name with its first label replaced by "*" *)
+  fst (ex_lookup_x [(n_sy, Stored ex_W true true)] n_qy) = ROk ex_W /\
+  (* in storage but due for renewal: it cannot be maintained with on-demand TLS off; the fallback
+     certificate is served -- although it has just been evicted -- and the cache ends up empty *)
+  ex_lookup_x [(n_qy, Stored ex_L false false)] n_qy = (ROk ex_f, St [] []) /\
+  (* in storage, due for renewal but still valid: served, and -- the background renewal not being
+     allowed without on-demand TLS -- removed from the cache again: the cache ends up empty *)
+  ex_lookup_x [(n_qy, Stored ex_L false true)] n_qy = (ROk ex_L, St [] []) /\
+  (* the exact name cannot be read (a storage error, not "not found"): the wildcard variant is not tried *)
+  lookup_x ascii_lower ascii_space (select_cert (fun _ => true) ex_valid) true ex_full 1 (Config [] n_fb) n_qy n_ip
+           (EnvX (Some n_qy) [(n_sy, Stored ex_W true true)] [n_qy] None) = (ROk ex_f, ex_full) /\
+  (* a ClientHelloInfo without a connection and without SNI: the local IP's certificate is not tried,
+     the name is empty and does not qualify: an error (never a panic: fix 9180bec) *)
+  fst (lookup_x ascii_lower ascii_space (select_cert (fun _ => true) ex_valid) false ex_state 0 (Config [] [])
+         [] [] (EnvX (Some []) [] [] None)) = RErr /\
+  (* nothing in storage: the fallback, the cache untouched *)
+  ex_lookup_x [] n_qy = (ROk ex_f, ex_full) /\
+  (* a name that does not qualify: refused although a fallback is configured *)
+  ex_lookup_x [] [113; 33; 46; 121]%N = (RErr, ex_full) /\
+  (* custom selectors on the 4-certificate cache: "zz.q" is listed nowhere, so all cached
+     certificates are offered: the largest hash wins; a refusing selector gives an error; one that
+     accepts only supported unexpired choices picks e2 for "a.x" *)
+  fst (lookup_x ascii_lower ascii_space (sel_policy (fun _ => true) ex_valid PMax) true ex_state 0 (Config [] [])
+         [122; 122; 46; 113]%N n_ip (EnvX (Some [122; 122; 46; 113]%N) [] [] None)) = ROk ex_w /\
+  fst (lookup_x ascii_lower ascii_space (sel_policy (fun _ => true) ex_valid PRefuse) true ex_state 0 (Config [] n_fb)
+         n_ax n_ip (EnvX (Some n_ax) [] [] None)) = RErr /\
+  fst (lookup_x ascii_lower ascii_space (sel_policy (fun _ => true) ex_valid PGoodMin) true ex_state 0 (Config [] [])
+         n_ax n_ip (EnvX (Some n_ax) [] [] None)) = ROk ex_e2.
+Proof.
+  repeat split; try (vm_compute; reflexivity).
+  intros k x H. cbn in H. destruct (str_eqb k n_qy) eqn:E; [|discriminate].
+  injection H as <-. apply str_eqb_eq in E. subst k. left. reflexivity.
 Qed.
